@@ -69,10 +69,13 @@ def byteOfBits (bits : List Bool) : UInt8 :=
   bit (bits.getD 3 false) 3 ||| bit (bits.getD 4 false) 4 ||| bit (bits.getD 5 false) 5 |||
   bit (bits.getD 6 false) 6 ||| bit (bits.getD 7 false) 7
 
-def encodeBits (bits : List Bool) : Bytes :=
-  if bits.isEmpty then [] else byteOfBits bits :: encodeBits (bits.drop 8)
-termination_by bits.length
-decreasing_by cases bits <;> simp_all <;> omega
+/-- eight bits per byte, least significant first; the last byte is padded with zero bits
+(`fuel` = an upper bound of the number of bytes, so that the definition is structural) -/
+def encodeBitsAux : Nat → List Bool → Bytes
+  | 0, _ => []
+  | fuel + 1, bits => if bits.isEmpty then [] else byteOfBits bits :: encodeBitsAux fuel (bits.drop 8)
+
+def encodeBits (bits : List Bool) : Bytes := encodeBitsAux bits.length bits
 
 /-! ### encoder parameters and strings -/
 
